@@ -602,6 +602,92 @@ func runC12(c vt.Case) vt.Event {
 		}()
 		results[i].Intact = string(blobs[i]) == string(pristine[i])
 	}
+	// ---- pooled decode buffers: decode + close, then several decoded lists alive at the same time ----
+	// The decoders take their buffers from process-wide pools and give them back in close(). After
+	// a decode + close of the whole list, 2-3 DIFFERENT lists of similar size (the list without its
+	// first value, without its last value, and the whole list) are decoded with pooling on and kept
+	// open together, their Next calls interleaved round robin: each must still yield its own list.
+	subs := map[string][]uint64{"all": list, "first": list, "last": list}
+	whiches := []string{"all"}
+	if len(list) >= 2 {
+		subs["first"], subs["last"] = list[1:], list[:len(list)-1]
+		whiches = []string{"first", "last", "all"}
+	}
+	ev["sub"] = map[string]any{"all": c12Runs(ints(subs["all"])), "first": c12Runs(ints(subs["first"])), "last": c12Runs(ints(subs["last"]))}
+	type pooledObs struct {
+		Codec   string    `json:"codec"`
+		Which   string    `json:"which"`
+		Decoded [][]int64 `json:"decoded"`
+		Err     string    `json:"err"`
+	}
+	pooled := []pooledObs{}
+	for _, codec := range []string{"dvs", "dss"} {
+		func() {
+			var obs []pooledObs
+			defer func() {
+				if r := recover(); r != nil {
+					obs = append(obs, pooledObs{Codec: codec, Which: "all", Decoded: [][]int64{}, Err: "panic: " + fmt.Sprint(r)})
+				}
+				pooled = append(pooled, obs...)
+			}()
+			enc := func(l []uint64) []byte {
+				rr := make([]storage.SeriesRef, len(l))
+				for i, v := range l {
+					rr[i] = storage.SeriesRef(v)
+				}
+				b, err := store.VerifEncodePostings(codec, rr)
+				if err != nil {
+					panic(err)
+				}
+				return b
+			}
+			// decode the whole list, drain, close
+			p, cl, err := store.VerifDecodePostings(codec, enc(list), false, false)
+			if err != nil {
+				obs = append(obs, pooledObs{Codec: codec, Which: "all", Decoded: [][]int64{}, Err: err.Error()})
+				return
+			}
+			for p.Next() {
+			}
+			cl()
+			// now several lists alive together
+			its := make([]index.Postings, len(whiches))
+			cls := make([]func(), len(whiches))
+			gots := make([][]uint64, len(whiches))
+			errs := make([]string, len(whiches))
+			for i, w := range whiches {
+				var e error
+				its[i], cls[i], e = store.VerifDecodePostings(codec, enc(subs[w]), false, false)
+				if e != nil {
+					errs[i] = e.Error()
+				}
+			}
+			for live := true; live; {
+				live = false
+				for i := range whiches {
+					if its[i] == nil || len(gots[i]) > len(list)+8 {
+						continue
+					}
+					if its[i].Next() {
+						gots[i] = append(gots[i], uint64(its[i].At()))
+						live = true
+					} else {
+						if e := its[i].Err(); e != nil {
+							errs[i] = e.Error()
+						}
+						its[i] = nil
+					}
+				}
+			}
+			for i, w := range whiches {
+				if cls[i] != nil {
+					cls[i]()
+				}
+				obs = append(obs, pooledObs{Codec: codec, Which: w, Decoded: c12Runs(ints(gots[i])), Err: errs[i]})
+			}
+		}()
+	}
+	ev["pooled"] = pooled
 	// ---- which decoder reads which encoding: every encoder x every decoder entry point ----
 	// encoders: dvs, dss, dss2 (the blobs above), be32 (raw big-endian postings as the index stores
 	// them and as an uncompressed cache entry holds them; only when every value fits 32 bits), and
